@@ -4,6 +4,7 @@ import (
 	"encoding/json"
 	"fmt"
 	"os"
+	"os/exec"
 	"path/filepath"
 	"strings"
 	"time"
@@ -97,6 +98,16 @@ func run(env *Env, chk *Check, res *Result) (int, error) {
 		if err != nil {
 			return 2, err
 		}
+	}
+	if chk.NeedCLI {
+		bin := filepath.Join(env.Tmp, "gophersat")
+		cmd := exec.Command("go", "build", "-o", bin, ".")
+		cmd.Dir = "/repo"
+		cmd.Env = goEnv()
+		if b, err := cmd.CombinedOutput(); err != nil {
+			return 2, MachineryError{fmt.Sprintf("cannot build the gophersat executable from /repo: %v\n%s", err, b)}
+		}
+		os.Setenv("VERIF_GOPHERSAT", bin)
 	}
 	env.Logf("driver rebuilt from /repo (tag verif)")
 
